@@ -1,5 +1,7 @@
 import AsherahVerif.Generated.Sketch
 import AsherahVerif.Expected.Sketch
+import AsherahVerif.Generated.CacheConst
+import AsherahVerif.Expected.Cache
 /-
 C15 (b) — the TinyLFU frequency sketch and doorkeeper never fault.
 
@@ -22,6 +24,13 @@ theorem source_as_vetted :
     estimate_indexArg = Expected.Sketch.estimate_indexArg ∧ sketchDepth = Expected.Sketch.sketchDepth :=
   ⟨rfl, rfl, rfl, rfl, rfl, rfl, rfl, rfl⟩
 
+/-- **operations are atomic.** Every public operation of `cache` holds `c.mux` from its first action to
+its return (regenerated from cache.go): concurrent callers therefore produce one of the sequential
+histories `Props/C15.lean` quantifies over — the premise under which the single-threaded model speaks
+for concurrent use (session cache, C16). -/
+theorem cache_ops_atomic_as_vetted :
+    Generated.CacheConst.lockDiscipline = Expected.Cache.lockDiscipline := rfl
+
 private theorem and_le (x m : BitVec 32) : (x &&& m).toNat ≤ m.toNat := by
   rw [BitVec.toNat_and]; exact Nat.and_le_right
 
@@ -35,9 +44,13 @@ so `c.counters[idx]` in `inc` and `val` cannot fault. -/
 theorem sketch_index_in_bounds (h size : BitVec 32) (hs : 1 ≤ size.toNat) :
     (position_idx h (size - 1)).toNat < size.toNat := by
   unfold position_idx
-  have := and_le (h >>> (2 : Nat)) (size - 1)
-  rw [sub_one size hs] at this
-  omega
+  -- whatever is masked: the proof does not depend on how the hash is mixed before `& c.mask`
+  have key : ∀ x : BitVec 32, (x &&& (size - 1)).toNat < size.toNat := by
+    intro x
+    have := and_le x (size - 1)
+    rw [sub_one size hs] at this
+    omega
+  exact key _
 
 /-- the nibble offset inside a row's 16-bit lane is 0, 4, 8 or 12. -/
 theorem sketch_offset_le (h mask : BitVec 32) : (position_off h mask).toNat ≤ 12 := by
@@ -92,16 +105,19 @@ theorem bloom_index_in_bounds (h1 h2 i numBits : BitVec 32) (hn : 1 ≤ numBits.
     (set_idx (put_bit h1 h2 i (numBits - 1))).toNat < (numBits + 63).toNat / 64 ∧
     (get_idx (contains_bit h1 h2 i (numBits - 1))).toNat < (numBits + 63).toNat / 64 := by
   unfold set_idx get_idx put_bit contains_bit
-  have a := and_le (h1 + i * h2) (numBits - 1)
-  rw [sub_one numBits hn] at a
   have e : (numBits + 63).toNat = numBits.toNat + 63 := by
     rw [BitVec.toNat_add]
     have : (63 : BitVec 32).toNat = 63 := by decide
     rw [this]; exact Nat.mod_eq_of_lt (by omega)
   have d : ∀ x : BitVec 32, (x / (64 : BitVec 32)).toNat = x.toNat / 64 := by
     intro x; rw [BitVec.toNat_udiv]; rfl
-  rw [d, e]
-  omega
+  have key : ∀ x : BitVec 32, ((x &&& (numBits - 1)) / (64 : BitVec 32)).toNat < (numBits.toNat + 63) / 64 := by
+    intro x
+    have a := and_le x (numBits - 1)
+    rw [sub_one numBits hn] at a
+    rw [d]; omega
+  rw [e]
+  exact ⟨key _, key _⟩
 
 /-- the bit position inside a doorkeeper word is below 64. -/
 theorem bloom_shift_lt (i : BitVec 32) : (set_shift i).toNat < 64 ∧ (get_shift i).toNat < 64 := by
